@@ -125,6 +125,63 @@ func runC09(c *eng.Ctx, tier string) {
 				}
 			}
 			c.Check(nNC == 1, "R-C09-1", g, g.Pos(), "returns of ErrValueNotChanged in GetConditional", "exactly one", itoa(nNC))
+			// with a successful active read and a differing version there is no
+			// third outcome: the value is returned, unless the (audited)
+			// permission check that follows fails
+			rerr := saveErr(read)
+			differEdge := func(b *ssa.BasicBlock, i int) bool {
+				ifi, ok := b.Instrs[len(b.Instrs)-1].(*ssa.If)
+				if !ok {
+					return true
+				}
+				cd := eng.CondOf(ifi.Cond, i == 0)
+				if isCmp(cd, token.EQL) {
+					return false
+				}
+				return true
+			}
+			isCheckerErr := func(v ssa.Value) bool {
+				call, _ := eng.TupleCall(v)
+				if call == nil {
+					return false
+				}
+				_, isChk := d.checkers[eng.Callee(&call.Call)]
+				return isChk
+			}
+			for _, fn := range []*ssa.Function{g, m.Fn} {
+				start := ssa.Instruction(read)
+				filt := eng.AndFilters(eng.AssumeErr(rerr, true), differEdge)
+				if fn != g {
+					if hcall == nil {
+						continue
+					}
+					start = hcall
+					filt = eng.AssumeErr(saveErr(hcall), true)
+				} else if g != m.Fn && fn == m.Fn {
+					continue
+				}
+				ei := errResultIndex(fn)
+				hit, path := eng.Search(fn, start, filt, nil, func(x ssa.Instruction) bool {
+					r, isR := x.(*ssa.Return)
+					if !isR {
+						return false
+					}
+					rv := eng.RetVals(r)
+					if !eng.IsNilConst(eng.Origin(rv[0])) {
+						return false
+					}
+					return ei < 0 || !isCheckerErr(rv[ei])
+				})
+				c.Check(hit == nil, "R-C09-1", fn, start.Pos(), "outcomes after a successful read of a differing active version", "the value is returned (only the audited permission check may still refuse)", func() string {
+					if hit == nil {
+						return ""
+					}
+					return "another outcome: " + eng.InstrStr(hit) + " via " + c.P.PathStr(path)
+				}())
+				if g == m.Fn {
+					break
+				}
+			}
 			// the name read is the operation's own
 			nameOK := false
 			for _, a := range read.Call.Args {
